@@ -351,8 +351,27 @@ class CFG:
         return cnt[self.entry.id]
 
 
+class _NotNone:
+    """assumption value: some object that is not None (nothing else is known about it)"""
+    def __repr__(self):
+        return "<not None>"
+
+
+NOTNONE = _NotNone()
+
+
 def partial_eval(test, assume):
     """three-valued evaluation of a boolean test under `assume` (name -> bool): True / False / None (unknown)"""
+    if isinstance(test, ast.Compare) and len(test.ops) == 1 and isinstance(test.left, ast.Name) and assume.get(test.left.id) is NOTNONE:
+        c = test.comparators[0]
+        if isinstance(c, ast.Constant) and c.value is None:
+            if isinstance(test.ops[0], ast.Is):
+                return False
+            if isinstance(test.ops[0], ast.IsNot):
+                return True
+        return None
+    if isinstance(test, ast.Name) and assume.get(test.id) is NOTNONE:
+        return None
     if isinstance(test, ast.Name):
         v = assume.get(test.id)
         return v if isinstance(v, bool) or v is None else bool(v)
